@@ -185,6 +185,7 @@ Close ==
 
 \* Forward relays a raw request the shim does not interpret (no lock-flag check in the code);
 \* the harness uses state-neutral requests.  by = "relayed": request and reply arrived byte-identical.
+\* q = "big": a request whose size sits on a buffer boundary (4 KiB, 64 KiB, the 16 MiB frame limit, each -6..+0)
 Forward(q) ==
   /\ "forward" \in Ops
   /\ Un(state)
@@ -313,7 +314,7 @@ NextOps == \/ Extension
            \/ \E c \in Certs : AddHard(c)
            \/ \E k \in Keys : AddHardKey(k)
            \/ \E p \in Pass : Lock(p) \/ Unlock(p)
-           \/ \E q \in {"ext", "list"} : Forward(q)
+           \/ \E q \in {"ext", "list"} \cup (IF "fwdbig" \in Ops THEN {"big"} ELSE {}) : Forward(q)
 NextEnv == \/ Tick \/ DirectLock \/ DirectUnlock \/ \E i \in Ids : DirectRemove(i) \/ DirectAdd(i)
 NextFault == \E op \in Ops, kind \in FaultKinds, h \in {"list", "sign", "add", "remove", "removeall", "lock", "unlock", "raw"} :
                \E arg \in FaultArgs(op) : FaultStep(op, arg, kind, h)
